@@ -631,13 +631,16 @@ def rule_errno_decisions(prog, fixture=False):
             key = "%s::%s::decision on %s#%d" % (fn.relfile(), fn.qn, what, k)
             at = ats.setdefault(fn.uid, reset_before(fn))
             ok = at(probe)
-            if not ok and fn.uid in lambdas_of:
-                # a lambda: every call of it must follow a reset in the enclosing function
+            if not ok:
+                # a helper (lambda or function) that only classifies: every call of it must follow a reset in its caller
                 oks = []
-                for p_ in lambdas_of[fn.uid]:
-                    pat = ats.setdefault(p_.uid, reset_before(p_))
+                for p_ in prog.functions.values():
+                    if p_ is fn or p_.body is None:
+                        continue
+                    pat = None
                     for c in p_.walk():
                         if is_call(c) and fn in prog.call_targets(p_, c):
+                            pat = pat or ats.setdefault(p_.uid, reset_before(p_))
                             oks.append(bool(pat(c)))
                 ok = bool(oks) and all(oks)
             if ok is None:
